@@ -485,7 +485,7 @@ func torrentDir(w io.Writer, hash hash.Hash, pth path.Path, lastdir path.Path) {
 
 func torrentEntry(ctx context.Context, w http.ResponseWriter, t *tor.Torrent, dir path.Path) error {
 	hash := t.Hash
-	name := t.Name
+	name := html.EscapeString(t.Name)
 	if !t.InfoComplete() {
 		if name != "" {
 			name = name + " "
@@ -684,7 +684,8 @@ func peers(w http.ResponseWriter, r *http.Request, t *tor.Torrent) {
 					state = fmt.Sprintf("(%v)", st.String())
 				}
 				fmt.Fprintf(w, "<tr><td>%v</td><td>%v</td></tr>\n",
-					tt.URL(), state)
+					html.EscapeString(tt.URL()),
+					html.EscapeString(state))
 			}
 			if i+1 < len(trackers) {
 				fmt.Fprintf(w, "<tr></tr>\n")
@@ -703,7 +704,7 @@ func peers(w http.ResponseWriter, r *http.Request, t *tor.Torrent) {
 				cnt = fmt.Sprintf("%v", count)
 			}
 			fmt.Fprintf(w, "<tr><td>%v</td><td>%v</td><td>%.0f</td>",
-				ws.URL(), cnt, ws.Rate())
+				html.EscapeString(ws.URL()), cnt, ws.Rate())
 		}
 		fmt.Fprintf(w, "</table></p>\n")
 	}
@@ -743,7 +744,7 @@ func hpeer(w http.ResponseWriter, p *peer.Peer, t *tor.Torrent) {
 	} else {
 		addr = a.String()
 	}
-	fmt.Fprintf(w, "<tr><td>%v</td>", addr)
+	fmt.Fprintf(w, "<tr><td>%v</td>", html.EscapeString(addr))
 
 	stats := p.GetStats()
 	if stats == nil {
@@ -884,7 +885,7 @@ func hknown(w http.ResponseWriter, kp *known.Peer, t *tor.Torrent) {
 	}
 
 	fmt.Fprintf(w, "<tr><td>%v</td><td>%v</td><td>%v</td><td>%v</td></tr>\n",
-		kp.Addr.String(), flags,
+		html.EscapeString(kp.Addr.String()), flags,
 		html.EscapeString(peerVersion(kp.Id, kp.Version)), kp.Id,
 	)
 }
@@ -913,9 +914,13 @@ func torfile(w http.ResponseWriter, r *http.Request, t *tor.Torrent) {
 	}
 }
 
+// m3uTitle removes from a playlist entry's title the characters that would
+// terminate the title or the line.
+var m3uTitle = strings.NewReplacer(",", "", "\n", " ", "\r", " ")
+
 func m3uentry(w http.ResponseWriter, host string, hash hash.Hash, path path.Path) {
 	fmt.Fprintf(w, "#EXTINF:-1,%v\n",
-		strings.Replace(path[len(path)-1], ",", "", -1))
+		m3uTitle.Replace(path[len(path)-1]))
 	fmt.Fprintf(w, "http://%v/%v/%v\n",
 		host, hash, pathUrl(path))
 }
